@@ -108,11 +108,12 @@ PROPS['C03'] = {
 PROPS['C17'] = {
     'units': ['write'],
     'title': 'idempotent re-runs; output depends only on the latest inputs (kernel)',
-    'technique': 'Verus contracts on check_write_file and Swift::write_codable_file (extracted verbatim) over a tracked ghost file-system log; '
-                 'history statement as lemmas over the contract',
+    'technique': 'Verus contracts on check_write_file, write_multiple_files, write_single_file and Swift::write_codable_file (extracted verbatim) over a '
+                 'tracked ghost file-system log; history statement as lemmas over the contract',
     'level_text': 'For every prior state of the output location and every output: identical content => no write at all (modification time preserved); '
                   'changed non-empty output => on success the file holds exactly the new output, nothing of the earlier content survives; at most one '
-                  'write, only to the output file, all other files untouched; hence re-running is a no-op and the last run wins (lemmas).',
+                  'write, only to the output file, all other files untouched; hence re-running is a no-op and the last run wins (lemmas). In folder '
+                  'mode every crate\'s module file, and in single-file mode the output file, holds exactly what this run generated for it.',
     'level_note': 'Ghost log with outlined std::fs calls whose contracts are assumed (notably: reading an existing file succeeds); generation being a '
                   'function of the sources is C06\'s domain; files the last run is not responsible for and the per-crate loops (dyn Language) are not decided.',
     'design_ref': 'DESIGN.md section 5 C17',
